@@ -125,7 +125,9 @@ static int cmd_worker(int argc, char **argv) {
 	const uint64_t warmup_seed = prop == "C13" ? (rt::mix64(seed ^ 0xC13, from) | 1) : 0;
 	const bool enum_cold = mode == "enum-cold"; // one enumeration item per process: this process runs exactly one plan, cold, and re-executes itself for the next
 	const bool cold = (arg_flag(argc, argv, "--cold") && mode != "enum") || enum_cold; // no warm-up: the first history of this process runs cold (see ops::Plan::cold)
-	if (enum_cold) gen::prime_request_counts_in_child(gc);
+	// a cold process must not make a library call before its first history, but its plans must be the ones a warm process would
+	// generate for the same index: the request counts the fault generators use come from a forked child
+	if (cold && (prop == "C15" || prop == "C16")) gen::prime_request_counts_in_child(gc);
 	if (!cold) { // warm-up (not counted; see gen::warmup_plan)
 		exec::Options wopt; wopt.run_index = ~(uint64_t)0;
 		exec::Report wr = exec::execute(gen::warmup_plan(gc, warmup_seed), wopt);
@@ -138,7 +140,7 @@ static int cmd_worker(int argc, char **argv) {
 		if (budget > 0 && done > 0 && now_s() - t0 > budget) break; // every worker completes at least one run however slow the machine
 		uint64_t run_seed = rt::mix64(rt::mix_str(seed, prop.c_str()), idx);
 		double t1 = now_s();
-		gc.no_dry_run = cold && done == 0 && !enum_cold;
+		gc.no_dry_run = cold && done == 0 && !(prop == "C15" || prop == "C16");
 		ops::Plan plan = gen::generate(gc, run_seed, idx);
 		plan.warmup_seed = cold ? 0 : warmup_seed;
 		if (cold && done == 0) plan.cold = true;
